@@ -23,6 +23,7 @@ def run(model, rep, tier):
     r7_one_file_per_suite(ctx, rep)
     r8_record_is_total(ctx, rep)
     r10_reports_written_once(ctx, rep)
+    r11_report_folder_fixed_early(ctx, rep)
     # the reports of a layer run in a subprocess are written by that child, after its report phase:
     # nothing in that phase may fail (shared with C07.R11)
     from . import c07
@@ -885,3 +886,38 @@ def r10_reports_written_once(ctx, rep, R='C17.R10'):
               % '; '.join('%s: %s' % (f.name, norm(x)[:40]) for f, x in bad[:2]), key='xml:forget',
               func=bad[0][0].qualname if bad else w.qualname,
               where=ctx.where(bad[0][0], bad[0][1]) if bad else '')
+
+
+def r11_report_folder_fixed_early(ctx, rep, R='C17.R11'):
+    rep.rule(R, 'the reports land in the folder the user named: the --xml value is made absolute '
+             '(Path.resolve / os.path.abspath) in Runner.configure, i.e. before any test or layer can '
+             'change the working directory, and that absolute path is what the wrapper writes to; a '
+             'relative path kept until writeXMLReports is interpreted against wherever a test left the '
+             'process')
+    m = ctx.model
+    fc = m.func('runner.Runner.configure')
+    from .common import sources_of
+    assigns = local_assignments(fc.node)
+    inst = [c for c in own_calls(fc.node) if (dotted(c.func) or '').endswith('XMLOutputFormattingWrapper')]
+    ok = False
+    why = 'the XML wrapper is not created in Runner.configure'
+    for c in inst:
+        f = kw(c, 'folder') or (c.args[1] if len(c.args) > 1 else None)
+        why = 'the folder handed to the wrapper (%s) is not made absolute first' % (norm(f) if f is not None else '?')
+        if f is None:
+            continue
+        todo, seen, absolute = [f], set(), False
+        while todo:
+            e = todo.pop()
+            for x in ast.walk(e):
+                if isinstance(x, ast.Call) and isinstance(x.func, ast.Attribute) and x.func.attr in ('resolve', 'absolute'):
+                    absolute = True
+                if isinstance(x, ast.Call) and (m.resolve_dotted(fc.module, dotted(x.func)) or '') in (
+                        'os.path.abspath', 'os.path.realpath'):
+                    absolute = True
+                if isinstance(x, ast.Name) and x.id in assigns and x.id not in seen:
+                    seen.add(x.id)
+                    todo += [v for v in assigns[x.id] if isinstance(v, ast.AST)]
+        ok = absolute
+    rep.check(ok, R, 'Runner.configure: XMLOutputFormattingWrapper(folder=<absolute path of --xml>)', why,
+              key='xml:folder-absolute', func=fc.qualname, where=ctx.where(fc, inst[0] if inst else fc.node))
